@@ -11,12 +11,16 @@ pub fn write_file_if_changed<T: AsRef<Path>>(path: T, data: &[u8]) -> Result<boo
         }
     }
 
+    #[cfg(feature = "verif")]
+    veryl_path::sim::point("out.open", path.as_ref()).into_diagnostic()?;
     let mut file = OpenOptions::new()
         .create(true)
         .write(true)
         .truncate(true)
         .open(path.as_ref())
         .into_diagnostic()?;
+    #[cfg(feature = "verif")]
+    veryl_path::sim::write_point_open("out", &mut file, path.as_ref(), data).into_diagnostic()?;
     file.write_all(data).into_diagnostic()?;
     file.flush().into_diagnostic()?;
     Ok(true)
